@@ -61,6 +61,7 @@ class FnContract:
         self.loops = {}   # k -> dict(invariant=[], invariant_except_break=[], ensures=[], decreases=None)
         self.ats = []     # (anchor, text)
         self.consts = {}  # inner const name -> [Clause]
+        self.closures = []  # (body_text, ret_decl, ensures_text)
         self.src = None
 
 
@@ -142,6 +143,11 @@ def parse_ctr(text, fname='<ctr>'):
                 cur.attrs.append(rest)
             elif d == 'assumed':
                 cur.assumed = rest or 'no reason given'
+            elif d == 'closure':
+                mm = re.match(r'"(.*)"\s+\((\w+:\s*[^)]+)\)\s+(.*)', rest)
+                if not mm:
+                    raise ContractError('%s:%d bad @closure' % (fname, ln))
+                cur.closures.append((mm.group(1), mm.group(2), mm.group(3)))
             elif d == 'const':
                 cur_const = rest
                 cur.consts.setdefault(rest, [])
@@ -332,6 +338,17 @@ def splice_module(modname, src, contracts, registry):
                 parts.append('\n    decreases %s,' % lp['decreases'])
             if parts:
                 add(lhe, ''.join(parts) + '\n/*#END*/ ')
+        for body_text, ret_decl, ens in c.closures:
+            body = src[bo:bc]
+            if body.count(body_text) != 1:
+                raise LostAnchor('%s: closure body %r occurs %d times' % (c.name, body_text, body.count(body_text)))
+            p0 = bo + body.index(body_text)
+            if not re.search(r'\|\s*$', src[bo:p0]):
+                raise LostAnchor('%s: %r is not a closure body' % (c.name, body_text))
+            cl = Clause('closure_ensures', c.tags, ens, c.name, len(registry))
+            registry.append(cl)
+            add(p0, ' -> (%s)\n    ensures\n/*#OB %s*/ %s,\n/*#END*/ { ' % (ret_decl, cl.oid, ens))
+            add(p0 + len(body_text), ' }')
         for cname, cls in c.consts.items():
             mk = '/*@const %s*/' % cname
             p0 = src.find(mk, bo, bc)
